@@ -830,7 +830,53 @@ def plan_C15(w):
                                  "payload bytes are random per seed; shapes are exhaustive over the finite domain of CodecCases.tla, sizes are not (up to 20 transactions of up to 40 bytes)"])
 
 
+# ------------------------------------------------------------------ C20 (proxy cases)
+
+def c20_corrupt(d):
+    if d.get("a") == "Proxy" and d["x"].get("kind") == "commit" and d["o"].get("ok") and d["o"]["runs"]:
+        d["o"]["runs"][0]["p"] = "00" + d["o"]["runs"][0]["p"][2:]
+        return True
+    return False
+
+
+def plan_C20(w):
+    q = Q(w)
+    known = vlib.load_known()
+    r = w.model_check("proxy", "MC_proxy.cfg", module="Proxy.tla", workers=1, timeout=300)
+    if not r.get("complete"):
+        raise Infra("Proxy.tla did not complete: %s" % r.get("raw_tail"))
+    cases = os.path.join(w.dir, "tlc_mc_proxy", "proxy_cases.json")
+    if not os.path.exists(cases):
+        raise Infra("TLC did not write the case list")
+    lists = json.load(open(cases))
+    ncases = sum(len(v) for v in lists.values())
+    log("  mc proxy     Proxy.tla: retry state machine distinct=%s; %d cases written (%s)" % (r.get("distinct"), ncases, {k: len(v) for k, v in lists.items()}))
+    sample = 500 if q else 0
+    specs = [("proxy%d" % i, ["-seed", w.seed * 37 + i, "-steps", sample, "-arg", cases]) for i in range(2 if q else 3)]
+    traces, sums = drive_par(w, specs, "proxy", par=3)
+    expect = ncases if not q else sample + len(lists["submits"]) + len(lists["snapshots"])
+    for s in sums:
+        if s["extra"]["cases_executed"] != expect:
+            raise Infra("driver executed %d of %d cases" % (s["extra"]["cases_executed"], expect))
+        if s["extra"]["commit_success_despite_fault"] < 20 or s["extra"]["commit_errors_reported"] < 20:
+            raise Infra("vacuous run: %s" % s["extra"])
+    tvs = w.validate_many(traces, par=4)
+    for r in tvs:
+        if r.get("stats", {}).get("proxy") != expect:
+            raise Infra("TLC consumed %s of %d proxy cases" % (r.get("stats", {}).get("proxy"), expect))
+    violations, known_hits, drift = judge(w, "C20", tvs, known)
+    st = None
+    if not violations:
+        st = selftest(w, "C20", traces[0], c20_corrupt, "the block seen by the application handler reported with another payload digest")
+    extra = {"selftest": st, "cases": {k: len(v) for k, v in lists.items()}, "cases_total": ncases, "cases_executed_per_driver": expect,
+             "scenarios": "TLC checks the three-attempt retry state machine of the socket proxy clients (Proxy.tla) and enumerates the case domain of ProxyCases.tla: CommitBlock with 6 transaction shapes (nil, empty, one empty, binary, many, 1 MiB) x internal transactions x 4 state-hash shapes (nil, empty, 32 bytes, 512 KiB) x 3 receipt shapes, through the in-process proxy and through the real socket proxy pair over loopback, under 11 connection-fault scripts applied by a relay (refused connections, reply lost after the handler ran, black hole until the timeout, idle connection killed, the application down for a while, handler error); GetSnapshot / Restore with nil, empty, binary and 1 MiB snapshots; SubmitTx sequences of 5 transactions from one reused client buffer (empty, text, non-UTF-8, 1 MiB) with a fault at the third.  TLC checks per executed case: every handler run saw the block that was sent (hash, payload digest, signatures), a successful call returned exactly what a successful handler run returned, success implies a successful handler run, a handler error is reported as an error, acknowledged transactions arrive byte-identical in submission order and nothing else arrives" + (" (quick tier: a seeded sample of %d commit cases per driver; the thorough tier runs all)" % sample if q else "")}
+    return conclude(w, "C20", sums, violations, known_hits, drift, extra=extra, min_blocks=0,
+                    assumptions=["connection drops are produced by a TCP relay between the two proxy sides on loopback (close on accept, close when the reply starts, never answer, close the idle connection); drops in the middle of a JSON document are not produced",
+                                 "proxy timeout 150 ms in these runs"])
+
+
 PLANS = {
+    "C20": plan_C20,
     "C15": plan_C15,
     "C11": plan_C11,
     "C16": plan_C16,
